@@ -252,7 +252,34 @@ func TestVerifC04(t *testing.T) {
 				hdJoinOp(4, 1, 4), hdJoinOp(3, 0, 0), hdJoinOp(1, 2, 1), hdJoinOp(1, 1, 1),
 				{K: "drop", C: 2}, hdJoinOp(3, 1, 3),
 				{K: "connect", C: 5}, {K: "hello", C: 5, Ht: "resume", Id: &hdIdRef{T: "priv", C: 2}}, hdJoinOp(4, 0, 0)}
+			// a member leaves and joins again while an observer stays; the observer processes the leave only after the member is
+			// back (publication order, everything delivered late): it must still end with the member in its view. Twice over,
+			// and with the observer's own notices in between.
+			late := []hdOp{{K: "connect", C: 1}, {K: "connect", C: 2}, {K: "connect", C: 3},
+				{K: "hello", C: 1, B: 0, U: 1}, {K: "hello", C: 2, B: 0, U: 2}, {K: "hello", C: 3, B: 0, U: 3},
+				hdJoinOp(1, 1, 1), {K: "drain"}, hdJoinOp(2, 1, 2), {K: "drain"}, hdJoinOp(3, 1, 3), {K: "drain"},
+				hdJoinOp(2, 0, 0), hdJoinOp(2, 1, 2), {K: "drain"},
+				hdJoinOp(2, 0, 0), hdJoinOp(2, 1, 2), hdJoinOp(3, 0, 0), hdJoinOp(3, 1, 3), {K: "drain"},
+				hdJoinOp(2, 2, 2), hdJoinOp(2, 1, 2), {K: "drain"}}
+			// the same with the leave delivered first and the join after it, each on its own
+			late2 := []hdOp{{K: "connect", C: 1}, {K: "connect", C: 2},
+				{K: "hello", C: 1, B: 0, U: 1}, {K: "hello", C: 2, B: 0, U: 2},
+				hdJoinOp(1, 1, 1), {K: "drain"}, hdJoinOp(2, 1, 2), {K: "drain"},
+				hdJoinOp(2, 0, 0), hdJoinOp(2, 1, 2), {K: "deliversubj", Sk: "room"}, {K: "deliversubj", Sk: "room"}, {K: "drain"},
+				{K: "msg", C: 1, To: &hdRecipient{T: "room"}, Tag: 3}, {K: "drain"}}
+			// a session that joins later sees everybody who is there: ordinary sessions, the internal client and its virtual
+			// sessions, whether they have flags or not
+			virtlate := []hdOp{{K: "connect", C: 1}, {K: "connect", C: 2}, {K: "connect", C: 3}, {K: "connect", C: 4},
+				{K: "hello", C: 1, Ht: "internal", B: 0}, {K: "hello", C: 2, B: 0, U: 2}, {K: "hello", C: 3, B: 0, U: 3}, {K: "hello", C: 4, B: 0, U: 4},
+				hdJoinOp(1, 1, 0), hdJoinOp(2, 1, 2),
+				{K: "internal", C: 1, Ik: "addsession", V: 7, R: 1, U: 9},
+				{K: "internal", C: 1, Ik: "addsession", V: 8, R: 1, U: 8, Flags: 1},
+				hdJoinOp(3, 1, 3),
+				{K: "internal", C: 1, Ik: "updatesession", V: 8, R: 1, HasF: true, Flags: 0},
+				{K: "internal", C: 1, Ik: "updatesession", V: 7, R: 1, HasF: true, Flags: 2},
+				hdJoinOp(4, 1, 4), hdJoinOp(3, 0, 0), hdJoinOp(3, 1, 3)}
 			return []*hdCase{{Id: 4, Mode: 1, Ops: wf}, {Id: 2, Mode: 2, Async: true, Ops: over}, {Id: 3, Mode: 2, Async: true, Ops: over2},
+				{Id: 5, Mode: 2, Async: true, Ops: late}, {Id: 6, Mode: 2, Async: true, Ops: late2}, {Id: 7, Mode: 1, Ops: virtlate},
 				{Id: 0, Mode: 2, Async: true, Ops: ghost, Finding: "C04/observers/cross-subject-reorder"},
 				{Id: 1, Mode: 2, Async: true, Ops: stale, Finding: "C04/observers/stale-joined-notice"}}
 		}})
@@ -270,7 +297,13 @@ func TestVerifC05(t *testing.T) {
 				return []hdOp{{K: "msg", C: c, To: &hdRecipient{T: "call"}, Tag: tag}, {K: "ctl", C: c, To: &hdRecipient{T: "call"}, Tag: tag + 1},
 					{K: "msg", C: c, To: &hdRecipient{T: "room"}, Tag: tag + 2}, {K: "ctl", C: c, To: &hdRecipient{T: "room"}, Tag: tag + 3},
 					{K: "msg", C: c, To: &hdRecipient{T: "user", U: 2}, Tag: tag + 4}, {K: "msg", C: c, To: hdToSession(2), Tag: tag + 5},
-					{K: "ctl", C: c, To: hdToSession(4), Tag: tag + 6}}
+					{K: "ctl", C: c, To: hdToSession(4), Tag: tag + 6},
+					// members the recipient's type does not call for: the type alone decides
+					{K: "msg", C: c, To: &hdRecipient{T: "room", SU: 2}, Tag: tag + 7}, {K: "ctl", C: c, To: &hdRecipient{T: "room", SU: 1}, Tag: tag + 8},
+					{K: "msg", C: c, To: &hdRecipient{T: "call", SU: 2}, Tag: tag + 9}, {K: "ctl", C: c, To: &hdRecipient{T: "call", SId: &hdIdRef{T: "pub", C: 3}}, Tag: tag + 10},
+					{K: "msg", C: c, To: &hdRecipient{T: "room", SId: &hdIdRef{T: "pub", C: 4}}, Tag: tag + 11},
+					{K: "msg", C: c, To: &hdRecipient{T: "user", U: 2, SId: &hdIdRef{T: "pub", C: 1}}, Tag: tag + 12},
+					{K: "ctl", C: c, To: &hdRecipient{T: "session", Id: &hdIdRef{T: "pub", C: 2}, SU: 1}, Tag: tag + 13}}
 			}
 			ops := []hdOp{{K: "connect", C: 1}, {K: "connect", C: 2}, {K: "connect", C: 3}, {K: "connect", C: 4},
 				{K: "hello", C: 1, B: 0, U: 1}, {K: "hello", C: 2, B: 0, U: 2}, {K: "hello", C: 3, B: 0, U: 2}, {K: "hello", C: 4, B: 1, U: 2},
@@ -494,6 +527,20 @@ func TestVerifC08(t *testing.T) {
 			add(false, hdJoinOp(1, 1, 1), hdJoinOp(2, 1, 2), incall, offer(1, "video", 3), offer(1, "screen", 0), perms(1))                 // everything withdrawn at once
 			add(false, hdJoinOp(1, 1, 1), hdJoinOp(2, 1, 2), incall, offer(1, "audio", 1), offer(1, "video", 2), perms(1, 1), perms(1, 0)) // audio only, then video only
 			add(false, hdJoinOp(1, 1, 1), hdJoinOp(2, 1, 2), incall, offer(1, "video", 3), perms(1, 3), perms(1, 0, 1), perms(1, 2), offer(1, "video", 1), offer(1, "screen", 0))
+			// every media combination of a publisher, published under each permission set that allows it, then every smaller set
+			// (each medium needs ITS permission: audio+video with only one of the two left must go), granted again in between
+			for _, start := range [][]int{{0, 1}, {3}, {0, 1, 3}} {
+				for _, pm := range []struct {
+					stream string
+					media  int
+				}{{"video", 3}, {"video", 2}, {"video", 1}, {"audio", 1}} {
+					ops := []hdOp{joinP(1, 1, 1, start...), hdJoinOp(2, 1, 2), incall}
+					for _, red := range [][]int{{1}, {0}, {2}, {}, {1, 2}, {0, 4}} {
+						ops = append(ops, offer(1, pm.stream, pm.media), perms(1, red...), perms(1, start...))
+					}
+					add(false, ops...)
+				}
+			}
 			// published before joining, the room does not grant it; an empty permission list in the join reply
 			add(false, offer(1, "video", 3), offer(1, "screen", 0), joinP(1, 1, 1, 4), hdJoinOp(2, 1, 2))
 			add(false, offer(1, "video", 3), joinP(1, 1, 1), offer(1, "video", 3), offer(1, "screen", 0), hdOp{K: "transient", C: 1, Tk: "set", Key: 1, Tag: 1},
@@ -621,6 +668,10 @@ func TestVerifC19(t *testing.T) {
 					{K: "api", B: 0, SignAs: 0, R: 1, Api: "incall", Users: []hdApiUser{{Id: &hdIdRef{T: "vpub", C: 1, V: 1}, InCall: 7}, {Id: &hdIdRef{T: "vpub", C: 1, V: 2}, InCall: 7}, {RS: 2, InCall: 7}}},
 					rem(1, 1, 1), addv(1, 3, 1, 7), upd(1, 3, 1, 1, 0), addv(1, 2, 1, 8), upd(1, 2, 1, 0, 1),
 					{K: "internal", C: 1, Ik: "incall", InCall: 1}, {K: "internal", C: 1, Ik: "incall", InCall: 0}, rem(1, 2, 1), rem(1, 3, 1), addv(1, 1, 1, 5)},
+				// sessions that join later see the virtual sessions that are there, with flags or without, also after the flags
+				// went back to none
+				{addv(1, 1, 1, 5), {K: "internal", C: 1, Ik: "addsession", V: 2, R: 1, U: 6, Flags: 1}, {K: "connect", C: 4}, {K: "hello", C: 4, B: 0, U: 4}, hdJoinOp(4, 1, 4),
+					upd(1, 2, 1, 0, 9), {K: "connect", C: 5}, {K: "hello", C: 5, B: 0, U: 5}, hdJoinOp(5, 1, 5), hdJoinOp(2, 0, 0), hdJoinOp(2, 1, 2), rem(1, 1, 1), hdJoinOp(4, 0, 0), hdJoinOp(4, 1, 4)},
 				// two internal clients with the same chosen id; an ordinary client trying
 				{addv(1, 1, 1, 5), hdJoinOp(3, 1, 0), addv(3, 1, 1, 6), rem(3, 1, 1), toV(2, 1, 1, 17), toV(2, 3, 1, 18), addv(2, 1, 1, 7), upd(2, 1, 1, 1, 1), rem(2, 1, 1)},
 			} {
